@@ -165,7 +165,7 @@ def check_case(case) -> Result:
         want = M * np.asarray(rf(t / tau), float)
         if not np.array_equal(y, want):
             k = int(np.argmax(np.abs(y - want)))
-            res.check("C05/forecast-is-M-times-rf-of-t-over-tau", float(abs(y[k] - want[k])), 1e-14 * abs(want[k]) + 1e-300, f"forecast_cum(t[{k}]={t[k]!r}, M={M!r}, tau={tau!r}) = {y[k]!r}, M*rf(t/tau) = {want[k]!r};")
+            res.check("C05/forecast-is-M-times-rf-of-t-over-tau", float(abs(y[k] - want[k])), 1e-13 * abs(want[k]) + 1e-300, f"forecast_cum(t[{k}]={t[k]!r}, M={M!r}, tau={tau!r}) = {y[k]!r}, M*rf(t/tau) = {want[k]!r};")
         fm = 2.0 ** case["m_factor_exp"]
         y2 = np.asarray(lib("forecast_cum", f.forecast_cum, t, M * fm, tau), float)
         if not np.array_equal(y2, y * fm):
@@ -189,7 +189,8 @@ def check_case(case) -> Result:
         ):
             got = np.asarray(lib(label, f.forecast_cum, t, **kwargs), float)
             want_p = m_eff * np.asarray(rf(t / tau_eff), float)
-            if got.shape != want_p.shape or not np.array_equal(got, want_p):
+            # equal up to rounding (t / tau may be formed as t * (1 / tau), M * rf in either order)
+            if got.shape != want_p.shape or not np.allclose(got, want_p, rtol=1e-13, atol=1e-300):
                 k = int(np.argmax(np.abs(got - want_p))) if got.shape == want_p.shape else 0
                 res.bad("C05/forecast-is-M-times-rf-of-t-over-tau", f"{label} with stored M_={Ms!r}, tau_={taus!r}, M={M!r}, tau={tau!r}: element {k} is {got[k] if got.shape == want_p.shape else got.shape!r}, M*rf(t/tau) = {want_p[k]!r}")
                 break
